@@ -255,6 +255,14 @@ def checkStep (e : Env) (pre : Sys) (op : Op) (res : Res) (post : Sys) (origin :
     ((changedMetas pre.st post.st).filter (fun d => !authorisedFor pre.st op d)).map
       (fun d => ("C09", s!"clause=unauthorisedChange cls={if (match op with | .store m => containsB m.p.commitId m.p.dataId && (pre.st.getMeta m.p.dataId).isSome | _ => false) then "commit-embeds-dataid" else "none"} rec=meta{d.take 8}"))
    else []) ++
+  -- C09: an accepted UpdataPermission leaves the model with exactly the lists the owner signed — in particular an empty
+  -- list revokes everybody
+  (match op, res with
+   | .perm _ _ _ d ro rw _, .ok =>
+     (match post.st.getMeta d with
+      | some m => if m.readonlyDids = ro && m.readwriteDids = rw then [] else [("C09", s!"clause=permApplied cls=none rec=meta{d.take 8}")]
+      | none => [])
+   | _, _ => []) ++
   -- C10: the actor of an accepted message must be entitled to act for what it touched
   (if res = .ok then (actorViolations pre.st op).map (fun v => ("C10", s!"clause=actor cls={match op with | .cancel .. => "cancel-claimed-provider" | _ => "none"} rec={v}")) else []) ++
   -- C10: an accepted Reset that names transaction addresses replaces the node's list with exactly those: an address the
